@@ -5,36 +5,41 @@ node-set results never contain a stripped node; then the induction over expressi
 -/
 namespace XalanModel.C13
 
-/-- the invariant on values: a node-set contains no stripped text node -/
-def Value.ok (sp : StripFn) : Value → Prop
-  | .ns l => ∀ x ∈ l, x.stripped sp = false
-  | _ => True
+/-! ### members of node-sets -/
 
-def OptOk (sp : StripFn) (v : Option Value) : Prop := ∀ w, v = some w → w.ok sp
+theorem XNode.strip_id (sp : StripFn) (x : XNode) : (x.strip sp).id = x.id := by
+  cases x with
+  | node l => exact Loc.strip_id sp l
+  | attr o k i q v => rfl
+
+theorem XNode.strVal_strip (sp : StripFn) (x : XNode) : (x.strip sp).strVal noStrip = x.strVal sp := by
+  cases x with
+  | node l => exact Loc.strVal_strip sp l
+  | attr o k i q v => rfl
 
 /-! ### document order -/
 
-theorem insertDocOrder_map (sp : StripFn) (x : Loc) (ys : List Loc) :
-    insertDocOrder (x.strip sp) (ys.map (Loc.strip sp)) = (insertDocOrder x ys).map (Loc.strip sp) := by
+theorem insertDocOrder_map (sp : StripFn) (x : XNode) (ys : List XNode) :
+    insertDocOrder (x.strip sp) (ys.map (XNode.strip sp)) = (insertDocOrder x ys).map (XNode.strip sp) := by
   induction ys with
   | nil => rfl
   | cons y ys ih =>
-    simp only [List.map_cons, insertDocOrder, Loc.strip_id]
+    simp only [List.map_cons, insertDocOrder, XNode.strip_id]
     split
     · rfl
     · split
       · rfl
       · simp [ih]
 
-theorem docOrder_map (sp : StripFn) (l : List Loc) :
-    docOrder (l.map (Loc.strip sp)) = (docOrder l).map (Loc.strip sp) := by
+theorem docOrder_map (sp : StripFn) (l : List XNode) :
+    docOrder (l.map (XNode.strip sp)) = (docOrder l).map (XNode.strip sp) := by
   induction l with
   | nil => rfl
   | cons x xs ih =>
     simp only [docOrder, List.map_cons, List.foldr_cons] at ih ⊢
     rw [ih, insertDocOrder_map]
 
-theorem mem_insertDocOrder (x a : Loc) (ys : List Loc) (h : a ∈ insertDocOrder x ys) : a = x ∨ a ∈ ys := by
+theorem mem_insertDocOrder (x a : XNode) (ys : List XNode) (h : a ∈ insertDocOrder x ys) : a = x ∨ a ∈ ys := by
   induction ys with
   | nil => simp [insertDocOrder] at h; exact Or.inl h
   | cons y ys ih =>
@@ -51,7 +56,7 @@ theorem mem_insertDocOrder (x a : Loc) (ys : List Loc) (h : a ∈ insertDocOrder
           · exact Or.inl h
           · exact Or.inr (List.mem_cons_of_mem _ h)
 
-theorem mem_docOrder (a : Loc) (l : List Loc) (h : a ∈ docOrder l) : a ∈ l := by
+theorem mem_docOrder (a : XNode) (l : List XNode) (h : a ∈ docOrder l) : a ∈ l := by
   induction l with
   | nil => simp [docOrder] at h
   | cons x xs ih =>
@@ -60,11 +65,314 @@ theorem mem_docOrder (a : Loc) (l : List Loc) (h : a ∈ docOrder l) : a ∈ l :
     · simp [h]
     · exact List.mem_cons_of_mem _ (ih h)
 
+theorem attrNodes_strip (sp : StripFn) (l : Loc) : (l.strip sp).attrNodes = l.attrNodes.map (XNode.strip sp) := by
+  obtain ⟨focus, path⟩ := l
+  cases focus with
+  | elem i n kids =>
+    cases n with
+    | none => rfl
+    | some t => simp [Loc.attrNodes, Loc.strip, Node.strip, XNode.strip]
+  | text i d => rfl
+  | comment i d => rfl
+  | pi i t d => rfl
+
+theorem attrNodes_keep (sp : StripFn) (l : Loc) (h : l.stripped sp = false) :
+    ∀ x ∈ l.attrNodes, x.stripped sp = false := by
+  obtain ⟨focus, path⟩ := l
+  cases focus with
+  | elem i n kids =>
+    cases n with
+    | none => simp [Loc.attrNodes]
+    | some t =>
+      intro x hx
+      simp only [Loc.attrNodes, List.mem_map] at hx
+      obtain ⟨a, _, rfl⟩ := hx
+      exact h
+  | text i d => simp [Loc.attrNodes]
+  | comment i d => simp [Loc.attrNodes]
+  | pi i t d => simp [Loc.attrNodes]
+
+theorem nsCollect_strip (sp : StripFn) : ∀ (L : List Loc) (seen : List String),
+    nsCollect (L.map (Loc.strip sp)) seen = (nsCollect L seen).map (XNode.strip sp)
+  | [], _ => rfl
+  | a :: rest, seen => by
+    obtain ⟨focus, path⟩ := a
+    cases focus with
+    | elem i n kids =>
+      cases n with
+      | none => simp [nsCollect, Loc.strip, Node.strip, nsCollect_strip sp rest seen]
+      | some t =>
+        simp only [List.map_cons, nsCollect, Loc.strip, Node.strip, List.map_append, List.map_map]
+        rw [nsCollect_strip sp rest]
+        simp [Function.comp_def, XNode.strip, Loc.strip, Node.strip]
+    | text i d => simp [nsCollect, Loc.strip, Node.strip, nsCollect_strip sp rest seen]
+    | comment i d => simp [nsCollect, Loc.strip, Node.strip, nsCollect_strip sp rest seen]
+    | pi i t d => simp [nsCollect, Loc.strip, Node.strip, nsCollect_strip sp rest seen]
+
+theorem nsCollect_keep (sp : StripFn) : ∀ (L : List Loc) (seen : List String),
+    (∀ a ∈ L, a.stripped sp = false) → ∀ x ∈ nsCollect L seen, x.stripped sp = false
+  | [], _, _, x, hx => by simp [nsCollect] at hx
+  | a :: rest, seen, h, x, hx => by
+    have ha := h a (by simp)
+    have hr : ∀ b ∈ rest, b.stripped sp = false := fun b hb => h b (List.mem_cons_of_mem _ hb)
+    obtain ⟨focus, path⟩ := a
+    cases focus with
+    | elem i n kids =>
+      cases n with
+      | none => exact nsCollect_keep sp rest seen hr x (by simpa [nsCollect] using hx)
+      | some t =>
+        simp only [nsCollect, List.mem_append, List.mem_map] at hx
+        rcases hx with ⟨d, _, rfl⟩ | hx
+        · exact ha
+        · exact nsCollect_keep sp rest _ hr x hx
+    | text i d => exact nsCollect_keep sp rest seen hr x (by simpa [nsCollect] using hx)
+    | comment i d => exact nsCollect_keep sp rest seen hr x (by simpa [nsCollect] using hx)
+    | pi i t d => exact nsCollect_keep sp rest seen hr x (by simpa [nsCollect] using hx)
+
+theorem nsNodes_strip (sp : StripFn) (l : Loc) (h : l.stripped sp = false) :
+    (l.strip sp).nsNodes = l.nsNodes.map (XNode.strip sp) := by
+  have hanc : (l :: l.ancestors).map (Loc.strip sp) = l.strip sp :: (l.strip sp).ancestors := by
+    have := selfAndAncestors_strip sp l h
+    rwa [List.filter_eq_self.mpr (fun x hx => selfAndAncestors_keep sp l h x hx)] at this
+  obtain ⟨focus, path⟩ := l
+  cases focus with
+  | elem i n kids =>
+    cases n with
+    | none => rfl
+    | some t =>
+      simp only [Loc.nsNodes, Loc.strip, Node.strip]
+      rw [← docOrder_map]
+      congr 1
+      rw [← nsCollect_strip]
+      congr 1
+      simpa [Loc.strip, Node.strip] using hanc.symm
+  | text i d => rfl
+  | comment i d => rfl
+  | pi i t d => rfl
+
+theorem nsNodes_keep (sp : StripFn) (l : Loc) (h : l.stripped sp = false) :
+    ∀ x ∈ l.nsNodes, x.stripped sp = false := by
+  intro x hx
+  obtain ⟨focus, path⟩ := l
+  cases focus with
+  | elem i n kids =>
+    cases n with
+    | none => simp [Loc.nsNodes] at hx
+    | some t =>
+      simp only [Loc.nsNodes] at hx
+      refine nsCollect_keep sp _ [] ?_ x (mem_docOrder x _ hx)
+      intro a ha
+      have := selfAndAncestors_keep sp ⟨.elem i (some t) kids, path⟩ h a ha
+      simpa [keep] using this
+  | text i d => simp [Loc.nsNodes] at hx
+  | comment i d => simp [Loc.nsNodes] at hx
+  | pi i t d => simp [Loc.nsNodes] at hx
+
+def keepX (sp : StripFn) (x : XNode) : Bool := !x.stripped sp
+
+theorem map_node_filter (sp : StripFn) (L : List Loc) :
+    ((L.map XNode.node).filter (keepX sp)).map (XNode.strip sp)
+      = (((L.filter (keep sp)).map (Loc.strip sp)).map XNode.node) := by
+  induction L with
+  | nil => rfl
+  | cons a as ih =>
+    by_cases h : a.stripped sp = true
+    · simp [keepX, XNode.stripped, keep, h, ← ih]
+    · have h' : a.stripped sp = false := (Bool.not_eq_true _).mp h
+      simp only [List.map_cons, List.filter_cons, keepX, XNode.stripped, keep, h', Bool.not_false, if_true,
+        XNode.strip, List.cons.injEq, true_and]
+      simpa [keepX, keep] using ih
+
+/-- every axis from every kind of context node commutes with stripping -/
+theorem xaxis_strip (sp : StripFn) (ax : Axis) (x : XNode) (h : x.stripped sp = false) :
+    ((ax.xlocs x).filter (keepX sp)).map (XNode.strip sp) = ax.xlocs (x.strip sp) := by
+  cases x with
+  | node l =>
+    have hl : l.stripped sp = false := h
+    cases ax with
+    | attrAxis =>
+      simp only [Axis.xlocs, XNode.strip]
+      rw [attrNodes_strip]
+      congr 1
+      apply List.filter_eq_self.mpr
+      intro y hy
+      simp [keepX, attrNodes_keep sp l hl y hy]
+    | nsAxis =>
+      simp only [Axis.xlocs, XNode.strip]
+      rw [nsNodes_strip sp l hl]
+      congr 1
+      apply List.filter_eq_self.mpr
+      intro y hy
+      simp [keepX, nsNodes_keep sp l hl y hy]
+    | child => simp only [Axis.xlocs, XNode.strip]; rw [map_node_filter, axis_strip sp .child l hl]
+    | descendant => simp only [Axis.xlocs, XNode.strip]; rw [map_node_filter, axis_strip sp .descendant l hl]
+    | descendantOrSelf => simp only [Axis.xlocs, XNode.strip]; rw [map_node_filter, axis_strip sp .descendantOrSelf l hl]
+    | followingSibling => simp only [Axis.xlocs, XNode.strip]; rw [map_node_filter, axis_strip sp .followingSibling l hl]
+    | precedingSibling => simp only [Axis.xlocs, XNode.strip]; rw [map_node_filter, axis_strip sp .precedingSibling l hl]
+    | self => simp only [Axis.xlocs, XNode.strip]; rw [map_node_filter, axis_strip sp .self l hl]
+    | parent => simp only [Axis.xlocs, XNode.strip]; rw [map_node_filter, axis_strip sp .parent l hl]
+    | ancestor => simp only [Axis.xlocs, XNode.strip]; rw [map_node_filter, axis_strip sp .ancestor l hl]
+    | ancestorOrSelf => simp only [Axis.xlocs, XNode.strip]; rw [map_node_filter, axis_strip sp .ancestorOrSelf l hl]
+    | following => simp only [Axis.xlocs, XNode.strip]; rw [map_node_filter, axis_strip sp .following l hl]
+    | preceding => simp only [Axis.xlocs, XNode.strip]; rw [map_node_filter, axis_strip sp .preceding l hl]
+  | attr o k i q v =>
+    have ho : o.stripped sp = false := h
+    have hk : keep sp o = true := by simp [keep, ho]
+    cases ax with
+    | attrAxis => rfl
+    | nsAxis => rfl
+    | child => rfl
+    | descendant => rfl
+    | followingSibling => rfl
+    | precedingSibling => rfl
+    | self => simp [Axis.xlocs, keepX, XNode.stripped, ho, XNode.strip]
+    | descendantOrSelf => simp [Axis.xlocs, keepX, XNode.stripped, ho, XNode.strip]
+    | parent =>
+      simp [Axis.xlocs, keepX, XNode.stripped, ho, XNode.strip]
+    | ancestor =>
+      simp only [Axis.xlocs, XNode.strip]
+      rw [map_node_filter, selfAndAncestors_strip sp o ho]
+    | ancestorOrSelf =>
+      have hkx : keepX sp (.attr o k i q v) = true := by simp [keepX, XNode.stripped, ho]
+      have hm := map_node_filter sp (o :: o.ancestors)
+      rw [selfAndAncestors_strip sp o ho] at hm
+      show List.map (XNode.strip sp) (List.filter (keepX sp)
+          (XNode.attr o k i q v :: List.map XNode.node (o :: o.ancestors))) = _
+      rw [List.filter_cons, hkx, if_pos rfl, List.map_cons, hm]
+      rfl
+    | following =>
+      simp only [Axis.xlocs, XNode.strip]
+      rw [map_node_filter, List.filter_append, List.map_append, descendants_strip, following_strip sp o ho]
+    | preceding =>
+      simp only [Axis.xlocs, XNode.strip]
+      rw [map_node_filter, preceding_strip sp o ho]
+
+theorem node_ne_attr {L : List Loc} {o : Loc} {k : Bool} {i : Nat} {q : QName} {v : String}
+    (h : XNode.attr o k i q v ∈ L.map XNode.node) : False := by
+  simp only [List.mem_map] at h
+  obtain ⟨_, _, hc⟩ := h
+  cases hc
+
+/-- attribute members of an axis from an unstripped context node have an unstripped owner -/
+theorem xlocs_attr_keep (sp : StripFn) (ax : Axis) (x : XNode) (h : x.stripped sp = false) :
+    ∀ y ∈ ax.xlocs x, (∃ o k i q v, y = XNode.attr o k i q v) → y.stripped sp = false := by
+  intro y hy ⟨o, k, i, q, v, hyo⟩
+  subst hyo
+  cases x with
+  | node l =>
+    cases ax with
+    | attrAxis => exact attrNodes_keep sp l h _ hy
+    | nsAxis => exact nsNodes_keep sp l h _ hy
+    | child => exact (node_ne_attr hy).elim
+    | descendant => exact (node_ne_attr hy).elim
+    | descendantOrSelf => exact (node_ne_attr hy).elim
+    | followingSibling => exact (node_ne_attr hy).elim
+    | precedingSibling => exact (node_ne_attr hy).elim
+    | self => exact (node_ne_attr hy).elim
+    | parent => exact (node_ne_attr hy).elim
+    | ancestor => exact (node_ne_attr hy).elim
+    | ancestorOrSelf => exact (node_ne_attr hy).elim
+    | following => exact (node_ne_attr hy).elim
+    | preceding => exact (node_ne_attr hy).elim
+  | attr o' k' i' q' v' =>
+    have ho : o'.stripped sp = false := h
+    cases ax with
+    | attrAxis => simp [Axis.xlocs] at hy
+    | nsAxis => simp [Axis.xlocs] at hy
+    | child => simp [Axis.xlocs] at hy
+    | descendant => simp [Axis.xlocs] at hy
+    | followingSibling => simp [Axis.xlocs] at hy
+    | precedingSibling => simp [Axis.xlocs] at hy
+    | self =>
+      simp only [Axis.xlocs, List.mem_singleton] at hy
+      cases hy; exact ho
+    | descendantOrSelf =>
+      simp only [Axis.xlocs, List.mem_singleton] at hy
+      cases hy; exact ho
+    | parent => simp [Axis.xlocs] at hy
+    | ancestor => simp [Axis.xlocs] at hy
+    | ancestorOrSelf =>
+      simp only [Axis.xlocs, List.mem_cons] at hy
+      rcases hy with hy | hy
+      · cases hy; exact ho
+      · simp at hy
+    | following => simp [Axis.xlocs] at hy
+    | preceding => simp [Axis.xlocs] at hy
+
+/-- the document node -/
+theorem xroot_strip (sp : StripFn) (x : XNode) (h : x.stripped sp = false) :
+    x.root.strip sp = (x.strip sp).root ∧ x.root.stripped sp = false := by
+  cases x with
+  | node l =>
+    have := root_strip sp l h
+    exact ⟨by simp [XNode.root, XNode.strip, this.1], this.2⟩
+  | attr o k i q v =>
+    have := root_strip sp o h
+    exact ⟨by simp [XNode.root, XNode.strip, this.1], this.2⟩
+
+/-- the strip-aware node test on `D` = "not stripped" and the plain node test on `D'` -/
+theorem xaccepts_strip (sp : StripFn) (pa : Principal) (t : Test) (x : XNode) :
+    t.xaccepts sp pa x = (keepX sp x && t.xaccepts noStrip pa (x.strip sp)) ∨
+    (x.stripped sp = true ∧ ∃ o k i q v, x = .attr o k i q v) := by
+  cases x with
+  | node l =>
+    left
+    simp only [Test.xaccepts, XNode.strip, keepX, XNode.stripped]
+    rw [accepts_strip sp t l]
+    cases pa <;> simp [keep, Bool.and_assoc, Bool.and_comm, Bool.and_left_comm]
+  | attr o k i q v =>
+    cases ho : o.stripped sp
+    · left; simp [Test.xaccepts, XNode.strip, keepX, XNode.stripped, ho]
+    · right; exact ⟨ho, o, k, i, q, v, rfl⟩
+
+/-- candidates of a step (axis then node test) from an unstripped context node -/
+theorem xcands_strip (sp : StripFn) (ax : Axis) (t : Test) (x : XNode) (h : x.stripped sp = false) :
+    ((ax.xlocs x).filter (t.xaccepts sp ax.isAttr)).map (XNode.strip sp)
+      = (ax.xlocs (x.strip sp)).filter (t.xaccepts noStrip ax.isAttr) ∧
+    ∀ y ∈ (ax.xlocs x).filter (t.xaccepts sp ax.isAttr), y.stripped sp = false := by
+  -- attribute members of an axis from an unstripped context have an unstripped owner
+  have hall : ∀ y ∈ ax.xlocs x, (∃ o k i q v, y = XNode.attr o k i q v) → y.stripped sp = false :=
+    xlocs_attr_keep sp ax x h
+  have hacc : ∀ y ∈ ax.xlocs x, t.xaccepts sp ax.isAttr y
+      = (keepX sp y && t.xaccepts noStrip ax.isAttr (y.strip sp)) := by
+    intro y hy
+    rcases xaccepts_strip sp ax.isAttr t y with h1 | ⟨hs, hex⟩
+    · exact h1
+    · rw [hall y hy hex] at hs; cases hs
+  constructor
+  · rw [← xaxis_strip sp ax x h]
+    generalize ax.xlocs x = L at hacc
+    induction L with
+    | nil => rfl
+    | cons a as ih =>
+      have ha := hacc a (by simp)
+      have ih' := ih (fun y hy => hacc y (List.mem_cons_of_mem _ hy))
+      simp only [List.filter_cons, ha]
+      by_cases h1 : keepX sp a = true
+      · by_cases h2 : Test.xaccepts noStrip ax.isAttr t (XNode.strip sp a) = true
+        · simp [h1, h2, ih']
+        · simp [h1, h2, ih']
+      · simp [h1, ih']
+  · intro y hy
+    have hm := List.mem_filter.mp hy
+    have := hacc y hm.1
+    rw [this] at hm
+    have hk : keepX sp y = true := by
+      have := hm.2; simp only [Bool.and_eq_true] at this; exact this.1
+    simpa [keepX] using hk
+
+/-- the invariant on values: a node-set contains no stripped text node -/
+def Value.ok (sp : StripFn) : Value → Prop
+  | .ns l => ∀ x ∈ l, x.stripped sp = false
+  | _ => True
+
+def OptOk (sp : StripFn) (v : Option Value) : Prop := ∀ w, v = some w → w.ok sp
+
 /-! ### merging the per-context results -/
 
-theorem mergeStep_map (sp : StripFn) (g g' : Loc → Option (List Loc)) (l : List Loc)
-    (h : ∀ x ∈ l, (g x).map (List.map (Loc.strip sp)) = g' (x.strip sp)) :
-    (mergeStep g l).map (List.map (Loc.strip sp)) = mergeStep g' (l.map (Loc.strip sp)) := by
+theorem mergeStep_map (sp : StripFn) (g g' : XNode → Option (List XNode)) (l : List XNode)
+    (h : ∀ x ∈ l, (g x).map (List.map (XNode.strip sp)) = g' (x.strip sp)) :
+    (mergeStep g l).map (List.map (XNode.strip sp)) = mergeStep g' (l.map (XNode.strip sp)) := by
   induction l with
   | nil => rfl
   | cons x xs ih =>
@@ -74,7 +382,7 @@ theorem mergeStep_map (sp : StripFn) (g g' : Loc → Option (List Loc)) (l : Lis
     rw [← hx, ← hxs]
     cases g x <;> cases mergeStep g xs <;> simp
 
-theorem mergeStep_mem (g : Loc → Option (List Loc)) (l r : List Loc) (P : Loc → Prop)
+theorem mergeStep_mem (g : XNode → Option (List XNode)) (l r : List XNode) (P : XNode → Prop)
     (h : ∀ x ∈ l, ∀ rx, g x = some rx → ∀ y ∈ rx, P y) (hr : mergeStep g l = some r) : ∀ y ∈ r, P y := by
   induction l generalizing r with
   | nil => simp [mergeStep] at hr; subst hr; simp
@@ -95,10 +403,10 @@ theorem mergeStep_mem (g : Loc → Option (List Loc)) (l r : List Loc) (P : Loc 
 
 /-! ### predicates -/
 
-theorem filterPred_go_map (sp : StripFn) (pred pred' : Loc → Nat → Nat → Option Bool) (n : Nat) :
-    ∀ (cs : List Loc) (i : Nat), (∀ c ∈ cs, ∀ j, pred c j n = pred' (c.strip sp) j n) →
-      (filterPred.go pred n cs i).map (List.map (Loc.strip sp))
-        = filterPred.go pred' n (cs.map (Loc.strip sp)) i
+theorem filterPred_go_map (sp : StripFn) (pred pred' : XNode → Nat → Nat → Option Bool) (n : Nat) :
+    ∀ (cs : List XNode) (i : Nat), (∀ c ∈ cs, ∀ j, pred c j n = pred' (c.strip sp) j n) →
+      (filterPred.go pred n cs i).map (List.map (XNode.strip sp))
+        = filterPred.go pred' n (cs.map (XNode.strip sp)) i
   | [], _, _ => rfl
   | c :: cs, i, h => by
     have ih := filterPred_go_map sp pred pred' n cs (i + 1) (fun d hd => h d (List.mem_cons_of_mem _ hd))
@@ -108,14 +416,14 @@ theorem filterPred_go_map (sp : StripFn) (pred pred' : Loc → Nat → Nat → O
     | none => rfl
     | some b => cases b <;> cases filterPred.go pred n cs (i + 1) <;> rfl
 
-theorem filterPred_map (sp : StripFn) (pred pred' : Loc → Nat → Nat → Option Bool) (cs : List Loc)
+theorem filterPred_map (sp : StripFn) (pred pred' : XNode → Nat → Nat → Option Bool) (cs : List XNode)
     (h : ∀ c ∈ cs, ∀ j n, pred c j n = pred' (c.strip sp) j n) :
-    (filterPred pred cs).map (List.map (Loc.strip sp)) = filterPred pred' (cs.map (Loc.strip sp)) := by
+    (filterPred pred cs).map (List.map (XNode.strip sp)) = filterPred pred' (cs.map (XNode.strip sp)) := by
   simp only [filterPred, List.length_map]
   exact filterPred_go_map sp pred pred' cs.length cs 1 (fun c hc j => h c hc j _)
 
-theorem filterPred_go_sub (pred : Loc → Nat → Nat → Option Bool) (n : Nat) :
-    ∀ (cs : List Loc) (i : Nat) (r : List Loc), filterPred.go pred n cs i = some r → ∀ y ∈ r, y ∈ cs
+theorem filterPred_go_sub (pred : XNode → Nat → Nat → Option Bool) (n : Nat) :
+    ∀ (cs : List XNode) (i : Nat) (r : List XNode), filterPred.go pred n cs i = some r → ∀ y ∈ r, y ∈ cs
   | [], _, r, h => by simp [filterPred.go] at h; subst h; simp
   | c :: cs, i, r, h => by
     simp only [filterPred.go] at h
@@ -137,13 +445,13 @@ theorem filterPred_go_sub (pred : Loc → Nat → Nat → Option Bool) (n : Nat)
           · simp [hy]
           · exact List.mem_cons_of_mem _ (ih y hy)
 
-theorem filterPred_sub (pred : Loc → Nat → Nat → Option Bool) (cs r : List Loc)
+theorem filterPred_sub (pred : XNode → Nat → Nat → Option Bool) (cs r : List XNode)
     (h : filterPred pred cs = some r) : ∀ y ∈ r, y ∈ cs :=
   filterPred_go_sub pred cs.length cs 1 r h
 
 /-! ### values -/
 
-@[simp] theorem Value.strip_ns (sp : StripFn) (l : List Loc) : (Value.ns l).strip sp = .ns (l.map (Loc.strip sp)) := rfl
+@[simp] theorem Value.strip_ns (sp : StripFn) (l : List XNode) : (Value.ns l).strip sp = .ns (l.map (XNode.strip sp)) := rfl
 @[simp] theorem Value.strip_num (sp : StripFn) (n : Int) : (Value.num n).strip sp = .num n := rfl
 @[simp] theorem Value.strip_str (sp : StripFn) (s : String) : (Value.str s).strip sp = .str s := rfl
 @[simp] theorem Value.strip_bool (sp : StripFn) (b : Bool) : (Value.bool b).strip sp = .bool b := rfl
@@ -153,7 +461,7 @@ theorem Value.toStr_strip (sp : StripFn) (v : Value) : (v.strip sp).toStr noStri
   | ns l =>
     cases l with
     | nil => rfl
-    | cons x xs => simp [Value.strip, Value.toStr, Loc.strVal_strip]
+    | cons x xs => simp [Value.strip, Value.toStr, XNode.strVal_strip]
   | num n => rfl
   | str s => rfl
   | bool b => rfl
@@ -161,11 +469,11 @@ theorem Value.toStr_strip (sp : StripFn) (v : Value) : (v.strip sp).toStr noStri
 theorem Value.toBool_strip (sp : StripFn) (v : Value) : (v.strip sp).toBool = v.toBool := by
   cases v <;> simp [Value.strip, Value.toBool]
 
-theorem any_strVal_map (sp : StripFn) (a : List Loc) (p : String → Bool) :
-    (a.map (Loc.strip sp)).any (fun x => p (x.strVal noStrip)) = a.any (fun x => p (x.strVal sp)) := by
+theorem any_strVal_map (sp : StripFn) (a : List XNode) (p : String → Bool) :
+    (a.map (XNode.strip sp)).any (fun x => p (x.strVal noStrip)) = a.any (fun x => p (x.strVal sp)) := by
   induction a with
   | nil => rfl
-  | cons x xs ih => simp [List.any_cons, Loc.strVal_strip, ih]
+  | cons x xs ih => simp [List.any_cons, XNode.strVal_strip, ih]
 
 theorem valEq_strip (sp : StripFn) (a b : Value) :
     valEq noStrip (a.strip sp) (b.strip sp) = valEq sp a b := by
@@ -173,7 +481,7 @@ theorem valEq_strip (sp : StripFn) (a b : Value) :
   · -- ns, ns
     rename_i x y
     congr 1
-    rw [any_strVal_map sp x (fun s => (y.map (Loc.strip sp)).any fun z => s == z.strVal noStrip)]
+    rw [any_strVal_map sp x (fun s => (y.map (XNode.strip sp)).any fun z => s == z.strVal noStrip)]
     congr 1
     funext l
     exact any_strVal_map sp y (fun s => l.strVal sp == s)
@@ -186,9 +494,9 @@ theorem valEq_strip (sp : StripFn) (a b : Value) :
 
 /-! ### the operations -/
 
-theorem stepV_sim (sp : StripFn) (g g' : Loc → Option (List Loc)) (v : Option Value)
+theorem stepV_sim (sp : StripFn) (g g' : XNode → Option (List XNode)) (v : Option Value)
     (hv : OptOk sp v)
-    (h : ∀ x, x.stripped sp = false → (g x).map (List.map (Loc.strip sp)) = g' (x.strip sp))
+    (h : ∀ x, x.stripped sp = false → (g x).map (List.map (XNode.strip sp)) = g' (x.strip sp))
     (hk : ∀ x, x.stripped sp = false → ∀ rx, g x = some rx → ∀ y ∈ rx, y.stripped sp = false) :
     (stepV g v).map (Value.strip sp) = stepV g' (v.map (Value.strip sp)) ∧ OptOk sp (stepV g v) := by
   cases v with
@@ -242,7 +550,7 @@ theorem unionV_sim (sp : StripFn) (a b : Option Value) (ha : OptOk sp a) (hb : O
         · exact ha (.ns la) rfl z hz
         · exact hb (.ns lb) rfl z hz
 
-theorem filterV_sim (sp : StripFn) (pred pred' : Loc → Nat → Nat → Option Bool) (v : Option Value)
+theorem filterV_sim (sp : StripFn) (pred pred' : XNode → Nat → Nat → Option Bool) (v : Option Value)
     (hv : OptOk sp v)
     (h : ∀ y, y.stripped sp = false → ∀ j n, pred y j n = pred' (y.strip sp) j n) :
     (filterV pred v).map (Value.strip sp) = filterV pred' (v.map (Value.strip sp)) ∧ OptOk sp (filterV pred v) := by
@@ -281,42 +589,6 @@ theorem normSpaceV_sim (sp : StripFn) (v : Option Value) :
     | none => simp [normSpaceV] at hw
     | some v => simp [normSpaceV] at hw; subst hw; trivial
 
-theorem Loc.attrs_strip (sp : StripFn) (l : Loc) : (l.strip sp).attrs = l.attrs := by
-  obtain ⟨focus, path⟩ := l
-  cases focus with
-  | elem i n kids => cases n <;> rfl
-  | text i d => rfl
-  | comment i d => rfl
-  | pi i t d => rfl
-
-theorem firstAttr_strip (sp : StripFn) (q : QName) (l : List Loc) :
-    firstAttr q (l.map (Loc.strip sp)) = firstAttr q l := by
-  induction l with
-  | nil => rfl
-  | cons x xs ih => simp only [List.map_cons, firstAttr, Loc.attrs_strip, ih]
-
-theorem attrOfV_sim (sp : StripFn) (q : QName) (v : Option Value) :
-    (attrOfV q v).map (Value.strip sp) = attrOfV q (v.map (Value.strip sp)) ∧ OptOk sp (attrOfV q v) := by
-  constructor
-  · cases v with
-    | none => rfl
-    | some v => cases v <;> simp [attrOfV, firstAttr_strip]
-  · intro w hw
-    cases v with
-    | none => simp [attrOfV] at hw
-    | some v => cases v <;> simp [attrOfV] at hw <;> subst hw <;> trivial
-
-theorem attrCountV_sim (sp : StripFn) (v : Option Value) :
-    (attrCountV v).map (Value.strip sp) = attrCountV (v.map (Value.strip sp)) ∧ OptOk sp (attrCountV v) := by
-  constructor
-  · cases v with
-    | none => rfl
-    | some v => cases v <;> simp [attrCountV, Loc.attrs_strip, Function.comp_def]
-  · intro w hw
-    cases v with
-    | none => simp [attrCountV] at hw
-    | some v => cases v <;> simp [attrCountV] at hw <;> subst hw <;> trivial
-
 theorem countV_sim (sp : StripFn) (v : Option Value) :
     (countV v).map (Value.strip sp) = countV (v.map (Value.strip sp)) ∧ OptOk sp (countV v) := by
   constructor
@@ -350,13 +622,16 @@ theorem strlenV_sim (sp : StripFn) (v : Option Value) :
     | none => simp [strlenV] at hw
     | some v => simp [strlenV] at hw; subst hw; trivial
 
-theorem localNameOf_strip (sp : StripFn) (l : Loc) : localNameOf (l.strip sp) = localNameOf l := by
-  obtain ⟨focus, path⟩ := l
-  cases focus with
-  | elem i n kids => cases n <;> rfl
-  | text i d => rfl
-  | comment i d => rfl
-  | pi i t d => rfl
+theorem localNameOf_strip (sp : StripFn) (x : XNode) : localNameOf (x.strip sp) = localNameOf x := by
+  cases x with
+  | node l =>
+    obtain ⟨focus, path⟩ := l
+    cases focus with
+    | elem i n kids => cases n <;> rfl
+    | text i d => rfl
+    | comment i d => rfl
+    | pi i t d => rfl
+  | attr o k i q v => rfl
 
 theorem localNameV_sim (sp : StripFn) (v : Option Value) :
     (localNameV v).map (Value.strip sp) = localNameV (v.map (Value.strip sp)) ∧ OptOk sp (localNameV v) := by
@@ -485,25 +760,29 @@ theorem strOp_sim (sp : StripFn) (f : String → String → Value)
 
 /-! ### the induction -/
 
-/-- the predicate function built from a sub-expression that satisfies the simulation -/
-theorem predFn_sim (sp : StripFn) (p : Expr)
-    (ih : ∀ c : Ctx, c.node.stripped sp = false →
+/-- a context the simulation applies to: the context node is not a stripped node, and no variable in scope holds
+a node-set with a stripped node (variables are bound to results of evaluations, so this is maintained) -/
+def Ctx.ok (sp : StripFn) (c : Ctx) : Prop :=
+  c.node.stripped sp = false ∧ ∀ v ∈ c.vars, Value.ok sp v
+
+theorem predFn_sim (sp : StripFn) (p : Expr) (vars : List Value) (hv : ∀ v ∈ vars, Value.ok sp v)
+    (ih : ∀ c : Ctx, c.ok sp →
       (p.eval sp c).map (Value.strip sp) = p.eval noStrip (c.strip sp))
-    (y : Loc) (hy : y.stripped sp = false) (i n : Nat) :
-    predFn (p.eval sp) y i n = predFn (p.eval noStrip) (y.strip sp) i n := by
-  have := ih ⟨y, i, n⟩ hy
+    (y : XNode) (hy : y.stripped sp = false) (i n : Nat) :
+    predFn vars (p.eval sp) y i n = predFn (vars.map (Value.strip sp)) (p.eval noStrip) (y.strip sp) i n := by
+  have := ih ⟨y, i, n, vars⟩ ⟨hy, hv⟩
   simp only [predFn, Ctx.strip] at this ⊢
   rw [← this]
-  cases p.eval sp ⟨y, i, n⟩ with
+  cases p.eval sp ⟨y, i, n, vars⟩ with
   | none => rfl
   | some v =>
     cases v <;> simp [predTruth, Value.strip, Value.toBool]
 
-theorem eval_sim (sp : StripFn) (e : Expr) : ∀ (c : Ctx), c.node.stripped sp = false →
+theorem eval_sim (sp : StripFn) (e : Expr) : ∀ (c : Ctx), c.ok sp →
     (e.eval sp c).map (Value.strip sp) = e.eval noStrip (c.strip sp)
       ∧ ∀ l, e.eval sp c = some (.ns l) → ∀ x ∈ l, x.stripped sp = false := by
   -- second component restated through `OptOk`
-  suffices h : ∀ (c : Ctx), c.node.stripped sp = false →
+  suffices h : ∀ (c : Ctx), c.ok sp →
       (e.eval sp c).map (Value.strip sp) = e.eval noStrip (c.strip sp) ∧ OptOk sp (e.eval sp c) by
     intro c hc
     exact ⟨(h c hc).1, fun l hl => (h c hc).2 (.ns l) hl⟩
@@ -515,10 +794,10 @@ theorem eval_sim (sp : StripFn) (e : Expr) : ∀ (c : Ctx), c.node.stripped sp =
     simp only [Expr.eval, Option.some.injEq] at hw
     subst hw
     intro x hx
-    simp at hx; subst hx; exact hc
+    simp at hx; subst hx; exact hc.1
   | root =>
     intro c hc
-    have hr := root_strip sp c.node hc
+    have hr := xroot_strip sp c.node hc.1
     refine ⟨?_, ?_⟩
     · simp [Expr.eval, Value.strip, Ctx.strip, hr.1]
     · intro w hw
@@ -532,10 +811,10 @@ theorem eval_sim (sp : StripFn) (e : Expr) : ∀ (c : Ctx), c.node.stripped sp =
     simp only [Expr.eval]
     rw [← hb.1]
     exact stepV_sim sp _ _ _ hb.2
-      (fun x hx => by simp [cands_strip sp ax t x hx])
-      (fun x _ rx hrx y hy => by
+      (fun x hx => by simp [(xcands_strip sp ax t x hx).1])
+      (fun x hx rx hrx y hy => by
         simp only [Option.some.injEq] at hrx; subst hrx
-        exact cands_keep sp ax t x y hy)
+        exact (xcands_strip sp ax t x hx).2 y hy)
   | stepP base ax t p ihb ihp =>
     intro c hc
     have hb := ihb c hc
@@ -543,11 +822,11 @@ theorem eval_sim (sp : StripFn) (e : Expr) : ∀ (c : Ctx), c.node.stripped sp =
     rw [← hb.1]
     exact stepV_sim sp _ _ _ hb.2
       (fun x hx => by
-        rw [← cands_strip sp ax t x hx]
+        rw [← (xcands_strip sp ax t x hx).1]
         exact filterPred_map sp _ _ _ (fun y hy j n =>
-          predFn_sim sp p (fun c hc => (ihp c hc).1) y (cands_keep sp ax t x y hy) j n))
-      (fun x _ rx hrx y hy =>
-        cands_keep sp ax t x y (filterPred_sub _ _ rx hrx y hy))
+          predFn_sim sp p c.vars hc.2 (fun c hc => (ihp c hc).1) y ((xcands_strip sp ax t x hx).2 y hy) j n))
+      (fun x hx rx hrx y hy =>
+        (xcands_strip sp ax t x hx).2 y (filterPred_sub _ _ rx hrx y hy))
   | stepPP base ax t p q ihb ihp ihq =>
     intro c hc
     have hb := ihb c hc
@@ -555,31 +834,32 @@ theorem eval_sim (sp : StripFn) (e : Expr) : ∀ (c : Ctx), c.node.stripped sp =
     rw [← hb.1]
     exact stepV_sim sp _ _ _ hb.2
       (fun x hx => by
-        rw [← cands_strip sp ax t x hx]
-        have h1 := filterPred_map sp (predFn (p.eval sp)) (predFn (p.eval noStrip))
-          ((ax.locs x).filter (t.accepts sp)) (fun y hy j n =>
-            predFn_sim sp p (fun c hc => (ihp c hc).1) y (cands_keep sp ax t x y hy) j n)
+        rw [← (xcands_strip sp ax t x hx).1]
+        simp only [Ctx.strip]
+        have h1 := filterPred_map sp (predFn c.vars (p.eval sp)) (predFn (c.vars.map (Value.strip sp)) (p.eval noStrip))
+          ((ax.xlocs x).filter (t.xaccepts sp ax.isAttr)) (fun y hy j n =>
+            predFn_sim sp p c.vars hc.2 (fun c hc => (ihp c hc).1) y ((xcands_strip sp ax t x hx).2 y hy) j n)
         rw [← h1]
-        cases hf : filterPred (predFn (p.eval sp)) ((ax.locs x).filter (t.accepts sp)) with
+        cases hf : filterPred (predFn c.vars (p.eval sp)) ((ax.xlocs x).filter (t.xaccepts sp ax.isAttr)) with
         | none => rfl
         | some r1 =>
           simp only [Option.bind_some, Option.map_some]
           exact filterPred_map sp _ _ _ (fun y hy j n =>
-            predFn_sim sp q (fun c hc => (ihq c hc).1) y
-              (cands_keep sp ax t x y (filterPred_sub _ _ r1 hf y hy)) j n))
-      (fun x _ rx hrx y hy => by
-        cases hf : filterPred (predFn (p.eval sp)) ((ax.locs x).filter (t.accepts sp)) with
+            predFn_sim sp q c.vars hc.2 (fun c hc => (ihq c hc).1) y
+              ((xcands_strip sp ax t x hx).2 y (filterPred_sub _ _ r1 hf y hy)) j n))
+      (fun x hx rx hrx y hy => by
+        cases hf : filterPred (predFn c.vars (p.eval sp)) ((ax.xlocs x).filter (t.xaccepts sp ax.isAttr)) with
         | none => simp [hf] at hrx
         | some r1 =>
           simp only [hf, Option.bind_some] at hrx
-          exact cands_keep sp ax t x y (filterPred_sub _ _ r1 hf y (filterPred_sub _ _ rx hrx y hy)))
+          exact (xcands_strip sp ax t x hx).2 y (filterPred_sub _ _ r1 hf y (filterPred_sub _ _ rx hrx y hy)))
   | union a b iha ihb =>
     intro c hc; simp only [Expr.eval]; rw [← (iha c hc).1, ← (ihb c hc).1]
     exact unionV_sim sp _ _ (iha c hc).2 (ihb c hc).2
   | filter e p ihe ihp =>
     intro c hc; simp only [Expr.eval]; rw [← (ihe c hc).1]
     exact filterV_sim sp _ _ _ (ihe c hc).2
-      (fun y hy j n => predFn_sim sp p (fun c hc => (ihp c hc).1) y hy j n)
+      (fun y hy j n => predFn_sim sp p c.vars hc.2 (fun c hc => (ihp c hc).1) y hy j n)
   | position => intro c _; exact ⟨rfl, by intro w hw; simp [Expr.eval] at hw; subst hw; trivial⟩
   | last => intro c _; exact ⟨rfl, by intro w hw; simp [Expr.eval] at hw; subst hw; trivial⟩
   | count e ih =>
@@ -628,9 +908,28 @@ theorem eval_sim (sp : StripFn) (e : Expr) : ∀ (c : Ctx), c.node.stripped sp =
     intro x y; exact ⟨rfl, trivial⟩
   | normalizeSpace e ih =>
     intro c hc; simp only [Expr.eval]; rw [← (ih c hc).1]; exact normSpaceV_sim sp _
-  | attrOf e q ih =>
-    intro c hc; simp only [Expr.eval]; rw [← (ih c hc).1]; exact attrOfV_sim sp q _
-  | attrCount e ih =>
-    intro c hc; simp only [Expr.eval]; rw [← (ih c hc).1]; exact attrCountV_sim sp _
+  | var i =>
+    intro c hc
+    constructor
+    · simp [Expr.eval, Ctx.strip, List.getElem?_map]
+    · intro w hw
+      simp only [Expr.eval] at hw
+      exact hc.2 w (List.mem_of_getElem? hw)
+  | letIn b body ihb ihbody =>
+    intro c hc
+    have hb := ihb c hc
+    simp only [Expr.eval]
+    rw [← hb.1]
+    cases hv : b.eval sp c with
+    | none => exact ⟨rfl, by intro w hw; simp at hw⟩
+    | some v =>
+      have hok : Ctx.ok sp ⟨c.node, c.pos, c.size, v :: c.vars⟩ := by
+        refine ⟨hc.1, ?_⟩
+        intro w hw
+        rcases List.mem_cons.mp hw with rfl | hw
+        · exact hb.2 w hv
+        · exact hc.2 w hw
+      have := ihbody _ hok
+      simpa [Ctx.strip] using this
 
 end XalanModel.C13
